@@ -209,6 +209,23 @@ let () =
          (* C11: the forest the delimiter-run procedure of the spec denotes (EmphSpec.specForest) for a line of the slice *)
          let t = unhex f0 in
          if okEmph t then List.iter (dump_i buf) (specForest t) else Buffer.add_string buf "skip"
+       | "emphspec2" ->
+         (* C11, widened slice: decode the line into code points (driver glue), check the slice condition and that the
+            spec's own encoder reproduces the bytes, then print the forest the spec procedure denotes *)
+         let bs = List.map zi (unhex f0) in
+         let rec dec l = (match l with
+             | [] -> Some []
+             | b :: r when b < 128 -> (match dec r with Some t -> Some (b :: t) | None -> None)
+             | b :: c :: r when b >= 0xC2 && b < 0xE0 && c land 0xC0 = 0x80 ->
+               (match dec r with Some t -> Some ((((b land 0x1F) lsl 6) lor (c land 0x3F)) :: t) | None -> None)
+             | b :: c :: d :: r when b >= 0xE0 && b < 0xF0 && c land 0xC0 = 0x80 && d land 0xC0 = 0x80 ->
+               (match dec r with Some t -> Some ((((b land 0x0F) lsl 12) lor ((c land 0x3F) lsl 6) lor (d land 0x3F)) :: t) | None -> None)
+             | _ -> None) in
+         (match dec bs with
+          | Some cps ->
+            let cs = List.map z_of_int cps in
+            if okLine2 cs && List.map zi (utf8 cs) = bs then List.iter (dump_i buf) (specForest2 (utf8 cs)) else Buffer.add_string buf "skip"
+          | None -> Buffer.add_string buf "skip")
        | "entriesok" ->
          (* C02: the hypothesis of InlineSpans.parseInlines_spans (lifted in SpanHyp.v), evaluated on the implementation's
             pre-inline tree (dump of NextBlock's result) *)
